@@ -11,3 +11,5 @@ import Blackbird.Props.C17
 #print axioms Blackbird.C17_target_mismatch_rejected
 #print axioms Blackbird.C17_node_count_mismatch_rejected
 #print axioms Blackbird.C17_missing_label_rejected
+#print axioms Blackbird.C17_isomorphism_unique
+#print axioms Blackbird.C17_matcher_choice_irrelevant
